@@ -395,6 +395,9 @@ func (r *shareRun) block(dt time.Duration) bool {
 	}
 	e.In("block t=%d matured=%s%s", newT.UnixNano(), matured, rw.String())
 	e.Obs("ok %s", r.show())
+	// the model evaluates, operation by operation, that its reward-accounting abstraction (SCAccrual: multiplier, shares,
+	// checkpoints; guards with the 34-digit rounding bound) commutes with the state the lines above tie to the application
+	e.Obs("inv ok")
 	e.Stat("block")
 	// each accepted undelegation is paid exactly once, to its recipient, at the first end-block at or after completion
 	due := make([]sdkmath.Int, len(c.Accs))
